@@ -7,7 +7,8 @@ import time
 
 from vf import common
 
-EVIDENCE_DIR = os.path.join(common.VERIF, 'evidence')
+# calibration / seeded runs (VF_REPO override) write their evidence elsewhere so that the committed evidence always describes /repo
+EVIDENCE_DIR = os.environ.get('VF_EVIDENCE_DIR') or os.path.join(common.VERIF, 'evidence')
 REPLAY_DIR = os.path.join(EVIDENCE_DIR, 'replay')
 KNOWN_FILE = os.path.join(common.VERIF, 'known_findings.txt')
 
